@@ -194,6 +194,13 @@ def log_matching(case, out):
         for i, lg in enumerate(logs):
             ks = sorted(lg)
             if ks and ks != list(range(ks[0], ks[0] + len(ks))):
+                nd = obs[i]
+                hole = [k for k in range(ks[0], ks[-1] + 1) if k not in lg]
+                after = [lg[k] for k in ks if k > hole[-1]]
+                if nd[0] == LEADER and ks[0] == 1 and all(e[1] == nd[1] for e in after) and all(k < hole[0] or k > hole[-1] for k in ks):
+                    # one hole, everything behind it written by this node as leader of its current term: the stale next_id
+                    # of a log that a conflict truncation had cut back (known finding; any other gap stays 'log-gap')
+                    return ('leader-appends-beyond-hole-after-conflict-truncation', 'step %d: leader %d of term %d holds log indexes %s: its own entries start at %d although its log ended at %d (next_id is never lowered by a conflict truncation)' % (step, i + 1, nd[1], ks, hole[-1] + 1, hole[0] - 1))
                 return ('log-gap', 'step %d: node %d log indexes %s' % (step, i + 1, ks))
     return None
 
@@ -326,6 +333,11 @@ def cluster_runs(run, ncases, length, kills, faults=True):
         n = (5, 3, 4)[k % 3]
         for name, sch in directed_schedules(r, n, kills):
             cases.append([n, r.choice([1, 2]), sch]); dist['directed:' + name] = dist.get('directed:' + name, 0) + 1
+    # recorded histories of repaired defects (dvlib/recorded_cases.json): kept as directed cases of every run
+    rp = os.path.join(os.path.dirname(os.path.abspath(__file__)), 'recorded_cases.json')
+    if os.path.exists(rp):
+        for name, c in json.load(open(rp)):
+            cases.append(c); dist['directed:recorded:' + name] = dist.get('directed:recorded:' + name, 0) + 1
     outs = core.probe_parallel('cluster', cases, jobs=12, timeout=1500)
     return cases, outs, dist
 
